@@ -482,8 +482,8 @@ pub fn bfs_check<const N: usize>(prop: &str, o: &Opts, rep: &mut Report) {
     if matches!(prop, "C03" | "C11" | "C17" | "C01") && o.shard.0 == 0 {
         ctor_checks::<N>(prop, rep);
     }
-    if prop == "C01" && o.shard.0 == 0 {
-        crate::io::c01_extend_ref::<N>(rep);
+    if matches!(prop, "C01" | "C02" | "C11") && o.shard.0 == 0 && N <= 16 {
+        crate::io::u8_twin::<N>(prop, rep);
     }
     if prop == "C03" && o.shard.0 == 0 {
         crate::zst::zst_twin::<N>(prop, rep);
@@ -504,6 +504,98 @@ pub fn bfs_check<const N: usize>(prop: &str, o: &Opts, rep: &mut Report) {
         rep.validated += 30;
         rep.count("full_usize_max_probes", 30);
     }
+}
+
+/// C17 / C20 at a capacity far above the core range (scratch-size and fill-ratio thresholds such as "more than 16
+/// elements wrapped", "at most a quarter full"): EVERY (front slot, length) layout, reached by a direct history
+/// instead of a BFS, x a boundary-value alphabet (each operation with arguments at 0, 1, the middle, the wrap point,
+/// the free space, the ends and beyond).  Not a fixpoint over histories: one canonical history per layout.
+pub fn large_probe<const N: usize>(prop: &str, o: &Opts, rep: &mut Report) {
+    use Act::*;
+    rep.notes.push(format!("N={}: extension capacity, every layout x boundary-value alphabet, one history per layout {}", N, calib::<N>().note));
+    let prop_s = prop.to_string();
+    let mut layouts = std::collections::BTreeSet::new();
+    let mut idx = 0usize;
+    for s in 0..N {
+        for l in 0..=N {
+            if s > 0 && l == 0 {
+                continue; // (emptying the buffer resets the front position)
+            }
+            idx += 1;
+            if !o.mine(idx) {
+                continue;
+            }
+            // front at slot s with l elements: leave one element at slot s-1, append, pop it
+            let mut acts = vec![];
+            if s > 0 {
+                acts.push(Extend(s));
+                acts.push(TruncateFront(1));
+                acts.push(Extend(l));
+                if l < N {
+                    acts.push(PopFront);
+                }
+            } else if l > 0 {
+                acts.push(Extend(l));
+            }
+            let recipe = Recipe { ctor: Ctor::New, acts };
+            let first = N - s; // elements in the first physical piece when wrapped
+            let free = N - l;
+            let mut pts: Vec<usize> = vec![0, 1, 2, l / 2, l.saturating_sub(1), l, first.min(l), first.min(l).saturating_sub(1), first.min(l) + 1];
+            pts.retain(|&x| x <= l);
+            pts.sort();
+            pts.dedup();
+            let mut probes: Vec<Act> = vec![PushBack, PushFront, TryPushBack, TryPushFront, PopBack, PopFront, Clear, MakeContiguous, Fill, FillWith, FillSpare, FillSpareWith];
+            for &i in &pts {
+                probes.extend([Remove(i), SwapRemoveBack(i), SwapRemoveFront(i), TruncateBack(i), TruncateFront(i), Get(i), NthFront(i), NthBack(i)]);
+            }
+            probes.extend([Swap(0, l.saturating_sub(1)), Swap(l / 2, 0), Swap(first.min(l).saturating_sub(1), first.min(l))]);
+            let mut sizes: Vec<usize> = vec![0, 1, 2, 15, 16, 17, 32, 33, free.saturating_sub(1), free, free + 1, first, N - 1, N, N + 1, 2 * N + 1];
+            sizes.sort();
+            sizes.dedup();
+            for &m in &sizes {
+                probes.extend([Extend(m), ExtendFromSlice(m), ExtendHint(m, 2)]);
+            }
+            for &a in &pts {
+                for &b in &pts {
+                    if a <= b {
+                        let w = b - a;
+                        probes.push(Drain(Rs::half_open(a, b), Script::empty(), Fin::Drop));
+                        if w > 0 {
+                            probes.push(Drain(Rs::half_open(a, b), Script::all_front(1), Fin::Drop));
+                            probes.push(Drain(Rs::half_open(a, b), Script::all_back(1), Fin::Drop));
+                            probes.push(Drain(Rs::half_open(a, b), Script::all_front(w + 1), Fin::Drop));
+                            probes.push(Range(Rs::half_open(a, b), Script::all_front(w + 1)));
+                            probes.push(RangeMut(Rs::half_open(a, b), Script::all_back(w + 1)));
+                        }
+                    }
+                }
+            }
+            probes.extend([Front, Back, AsSlices, AsMutSlices, CloneBuf, HashIt, EqSelfClone, EqSlice, CmpSelfClone, DebugFmt(0)]);
+            probes.extend([Iter(Script::all_front(l + 1)), Iter(Script::all_back(l + 1)), IterMut(Script::alternating(l + 1, 0)), IntoIter(Script::all_front(l + 1)), IntoIter(Script::alternating(l + 1, 1))]);
+            let mut st: Option<State> = None;
+            for act in probes {
+                let tr = transition::<N>(&recipe, &[], &act, None);
+                if st.is_none() {
+                    let front = tr.rec.pre.s0.first().copied().unwrap_or(usize::MAX);
+                    layouts.insert((front, tr.rec.pre.len));
+                    st = Some(State { recipe: recipe.clone(), key: vec![], depth: recipe.acts.len(), len: l, layout: (front, tr.rec.pre.len), classes: String::new() });
+                }
+                let st = st.as_ref().unwrap();
+                account(rep, st, &act, &tr);
+                let (sel, bounded) = select::<N>(&prop_s, &act, &tr);
+                if bounded {
+                    rep.count("bounded_transitions", 1);
+                }
+                for (p, stage) in sel {
+                    record(rep, N, &st.recipe, &[], &act, None, &p, stage);
+                }
+            }
+            rep.states += 1;
+        }
+    }
+    rep.fixpoint = false;
+    rep.layouts += layouts.len() as u64;
+    rep.count("extension_layouts_this_shard", layouts.len() as u64);
 }
 
 /// Every constructor, every source length 0..=2N+1: contents, ownership, panics, allocations.
